@@ -24,6 +24,7 @@ META = {
              'ten through PrecomputedIO; huge_channel: 18 and 84 MiB chann'
              'els (24-bit table offsets).'
              " Round 12: regular label structure (labels depending on one coordinate, flat-periodic, tiled)."
+             " Round 21: chunks handed over as masked arrays (lossless encodings: the data are the chunk)."
              " Round 17: the object returned by encode() is compared again after the same encoder encoded two more chunks."),
     "trusted_base": ["vlib/refs/cseg_spec.py decoder/validator written from "
                      "the format description; cross-checked against a "
@@ -284,7 +285,7 @@ def check_chunk(ctx, chunk, block, dtype_name, what, via="direct"):
     # the same values in another memory layout (views of a larger volume,
     # re-oriented stacks, big-endian files) must encode the same labels
     if chunk.size <= 4096:
-        for layout in ds.LAYOUTS[1:]:
+        for layout in ds.LAYOUTS_IO[1:]:
             try:
                 vbuf = bytes(enc.encode(ds.laid_out(chunk, layout)))
                 vref = cseg_spec.decode(vbuf, shape, block, chunk.dtype)
